@@ -409,6 +409,7 @@ fn channel_source_scenario(n: usize, p: u64, bound: usize) -> Scenario {
         shards: 1,
         nontrivial: n > 1,
         unbounded: false,
+        loop_body: false,
     }
 }
 
